@@ -20,7 +20,7 @@ RULE_TEXT = ("The same seeded operation sequence (6-30 ops: handler update/query
 COMPONENTS = {"real": ["SqliteWorkflowStore (both modes), SqliteStateStore, migrations, stdlib sqlite3 on real files"], "stub": [],
               "sim": ["loop (subscriber tasks), op generator"]}
 ASSUMPTIONS = ["both stores live in one process; file locking differences of the unix-none VFS are not exercised"]
-EXPECTED_PROBES = ["state-op-then-store-op", "subscribe", "two-runs"]
+EXPECTED_PROBES = ["state-seeded-from-other-run", "state-op-then-store-op", "subscribe", "two-runs"]
 LEVEL_TEXT = "Seeded differential exploration of operation histories between the two connection modes."
 LEVEL_NOTE = "Trusted: nothing beyond the comparison itself (differential oracle)."
 
@@ -65,15 +65,15 @@ def run(tape):
                 state_stores[k] = stores[b].create_state_store(rid)
             return state_stores[k]
 
-        nev = {"r1": 0, "r2": 0}
+        nev = {"r1": 0, "r2": 0, "r3": 0}
         for i in range(nops):
             if world.violations:
                 break
-            rid = tape.choice(["r1", "r1", "r2"], "rid")
+            rid = tape.choice(["r1", "r1", "r2", "r3"], "rid")
             if rid == "r2":
                 world.probe("two-runs")
             op = tape.choice(["h_update", "h_query", "h_delete", "ev_append", "ev_query", "ev_subscribe", "tick_append", "tick_get",
-                              "st_set", "st_get", "st_edit", "st_set_state", "st_clear", "st_fresh"], "op")
+                              "st_set", "st_get", "st_edit", "st_set_state", "st_clear", "st_fresh", "st_seed", "st_seed_mem"], "op")
             is_state = op.startswith("st_")
             if not is_state and last_state_op[0]:
                 world.probe("state-op-then-store-op")
@@ -139,6 +139,23 @@ def run(tape):
                 for b in stores:
                     state_stores.pop((b, rid), None)
                 await both(f"state[{rid}].get_state(new object)", lambda b, st: _state(sstore(b, rid)))
+            elif op in ("st_seed", "st_seed_mem"):
+                # a run continued from an earlier run: its state store is created from the serialized form of the old one
+                # (SQL-level copy for a sqlite reference, InMemory-format payload otherwise)
+                from workflows.context.serializers import JsonSerializer
+                from workflows.context.state_store import InMemoryStateStore
+                world.probe("state-seeded-from-other-run")
+                target = "r3" if rid != "r3" else "r1"
+
+                async def seed(b, st):
+                    ser = JsonSerializer()
+                    if op == "st_seed":
+                        payload = sstore(b, rid).to_dict(ser)
+                    else:
+                        payload = InMemoryStateStore(DictState(seeded=i)).to_dict(ser)
+                    state_stores[(b, target)] = st.create_state_store(target, None, payload, ser)
+                    return await _state(state_stores[(b, target)])
+                await both(f"state[{target}] seeded from {rid if op == 'st_seed' else 'in-memory payload'}", seed)
             last_state_op[0] = is_state
         world._nt = bool(world.probes.get("state-op-then-store-op"))
         return ops
